@@ -69,6 +69,17 @@ class Ops:
     def __init__(self):
         self.interp = None
         self.cvx_flags: list[TV] = []  # flags of all cvxpy expressions handed to Problems (per run)
+        self.sym_defs: dict = {}  # derived integer symbols: name -> ("ceil", poly) | ("floordiv", a, b) | ("mod", a, b)
+        self._sym_n = 0
+
+    def derived_sym(self, kind, *polys):
+        for k, v in self.sym_defs.items():
+            if v == (kind,) + polys:
+                return Poly.sym(k)
+        self._sym_n += 1
+        name = f"{kind}#{self._sym_n}"
+        self.sym_defs[name] = (kind,) + polys
+        return Poly.sym(name)
 
     # convenience -------------------------------------------------------------------------------
     def ev(self, kind, node, **kw):
@@ -255,10 +266,12 @@ class Ops:
                         poly = Poly.const(1)
                         for _ in range(int(k)):
                             poly = poly * a.poly
-                elif opname == "floordiv":
+                elif opname in ("floordiv", "mod"):
                     ca, cb = a.poly.const_value(), b.poly.const_value()
                     if ca is not None and cb not in (None, 0):
-                        poly = Poly.const(ca // cb)
+                        poly = Poly.const(ca // cb if opname == "floordiv" else ca % cb)
+                    elif a.is_py and b.is_py:
+                        poly = self.derived_sym(opname, a.poly, b.poly)
             except Exception:
                 poly = None
         kind = self.result_kind(a, b, opname)
